@@ -1908,11 +1908,35 @@ func (e *Engine) runDefers(fr *Frame, st *State, at *ssa.BasicBlock) {
 		d := fr.defers[i]
 		// A deferred call is executed here only if its registration dominates
 		// this point (registered on every path) and is not inside a loop.
-		if !d.inst.Block().Dominates(at) {
-			panic(engErr("conditionally registered defer: " + e.posStr(d.inst.Pos())))
+		if d.inst.Block().Dominates(at) {
+			e.callResolved(fr, st, d.call, d.fn, d.args, nil, d.inst.Pos())
+			continue
 		}
-		e.callResolved(fr, st, d.call, d.fn, d.args, nil, d.inst.Pos())
+		if !blockReaches(d.inst.Block(), at) {
+			continue // this return cannot come after the registration: the defer is not pending here
+		}
+		// registered on some of the paths that arrive here only (a defer inside a branch): not modelled
+		panic(engErr("conditionally registered defer: " + e.posStr(d.inst.Pos())))
 	}
+}
+
+// blockReaches: b can be reached from a along control-flow edges (a itself excluded unless on a cycle).
+func blockReaches(a, b *ssa.BasicBlock) bool {
+	seen := map[*ssa.BasicBlock]bool{}
+	work := append([]*ssa.BasicBlock{}, a.Succs...)
+	for len(work) > 0 {
+		x := work[len(work)-1]
+		work = work[:len(work)-1]
+		if seen[x] {
+			continue
+		}
+		seen[x] = true
+		if x == b {
+			return true
+		}
+		work = append(work, x.Succs...)
+	}
+	return false
 }
 
 // siteAsserts checks the contract's assert_at clauses before the first instruction
